@@ -921,7 +921,8 @@ fn up_schema() -> &'static Schema<PlainQuery, UpQuery, EmptySubscription> {
     S.get_or_init(|| Schema::new(PlainQuery, UpQuery, EmptySubscription))
 }
 
-const UP_QUERY: &str = "mutation($a: Upload, $b: [Upload], $o: UpIn) { a: echoOpt(f: $a) b: echoList(fs: $b) o: echoObj(o: $o) ol: echoObjList(o: $o) }";
+// (one operation variable is itself called `variables`, so that a map path can read `variables.variables.f`)
+const UP_QUERY: &str = "mutation($a: Upload, $b: [Upload], $o: UpIn, $variables: UpIn) { a: echoOpt(f: $a) b: echoList(fs: $b) o: echoObj(o: $o) ol: echoObjList(o: $o) v: echoObj(o: $variables) }";
 
 // ------------------------------------------------------------------------------------------------
 // C24
@@ -973,8 +974,9 @@ fn run_c24(variant: usize) -> CaseOut {
         // list lengths 0-2, now and then 11-12 (two-digit list indices)
         let nb = if chance(1, 10) { 11 + draw(2) as usize } else { draw(3) as usize };
         let nol = draw(3) as usize;
-        vars.push(json!({"a": null, "b": vec![J::Null; nb], "o": {"f": null, "n": i + 1, "fs": vec![J::Null; nol]}}));
+        vars.push(json!({"a": null, "b": vec![J::Null; nb], "o": {"f": null, "n": i + 1, "fs": vec![J::Null; nol]}, "variables": {"f": null, "n": 7}}));
         slots.push((i, "variables.a".into()));
+        slots.push((i, "variables.variables.f".into()));
         for k in 0..nb {
             slots.push((i, format!("variables.b.{k}")));
         }
@@ -1155,7 +1157,8 @@ fn run_c24(variant: usize) -> CaseOut {
                     let exp_o = binding.get(&(ri, "variables.o.f".to_string())).map(|fi| json!(format!("{}#{}", expected_echo(&files[*fi]), ri + 1))).unwrap_or(J::Null);
                     let nol = vars[ri]["o"]["fs"].as_array().unwrap().len();
                     let exp_ol: Vec<J> = (0..nol).map(|k| binding.get(&(ri, format!("variables.o.fs.{k}"))).map(|fi| json!(expected_echo(&files[*fi]))).unwrap_or(J::Null)).collect();
-                    let exp = json!({"a": exp_a, "b": exp_b, "o": exp_o, "ol": exp_ol});
+                    let exp_v = binding.get(&(ri, "variables.variables.f".to_string())).map(|fi| json!(format!("{}#7", expected_echo(&files[*fi])))).unwrap_or(J::Null);
+                    let exp = json!({"a": exp_a, "b": exp_b, "o": exp_o, "ol": exp_ol, "v": exp_v});
                     if o.get("errors").is_some() || o["data"] != exp {
                         // after an injected disk error the request may fail, or succeed with the right
                         // content (an implementation may retry); it must never bind wrong or truncated data
